@@ -45,6 +45,9 @@ CHECKS = {
  "C14": dict(cat="exploration", tech="schedule generation: Hypothesis-drawn workloads run under a line-level cooperative scheduler whose choice sequence is part of the case (controlled interleavings of tensora/compile/*.py), plus 16-thread stress rounds; differential oracle against the same calls made sequentially on a cold cache",
    text="Generated workloads (mix of cached/never-seen problems, both back ends) are run concurrently under generated, replayable interleavings and under free-running contention; every call must return exactly its sequential result, with no exception, hang or crash. Native-level races are only sampled (stated limit).",
    note="Trusted: sys.settrace line events as yield points; the sequential run in the same process as reference.", ref="DESIGN.md §3 C14"),
+ "C15": dict(cat="exploration", tech="metamorphic determinism testing: the same generated requests in child processes under different PYTHONHASHSEED values and request orders (sha1 of text must agree), CLI-vs-library differential through CliRunner, and model-based cache histories (equal spellings vs near-misses, cache_clear) checked against isolated runs and a harness-side canonical key",
+   text="Generated requests produce byte-identical text in every process, hash seed and order; the CLI prints or writes exactly the library text with unmentioned tensors dense; in generated call histories every result equals the same request on a cleared cache and a cache hit occurs only for a request whose canonical key was seen since the last clear.",
+   note="Trusted: sha1 as text identity; the harness's canonical key (tree printed by the harness, formats as (modes, ordering)).", ref="DESIGN.md §3 C15"),
 }
 def main():
     checks = []
